@@ -568,10 +568,16 @@ func (p *Parser) evaluateBuiltInFunction(tokenType lexer.TokenType, keyword stri
 	// Evaluate arguments if it's a print call with arguments.
 	if nextToken.Type() != lexer.CLOSING_ROUND_BRACKET {
 		for {
+			argToken := p.peek()
 			expr, err := p.evaluateExpression(ctx)
 
 			if err != nil {
 				return nil, err
+			}
+
+			// A function without return values cannot be used as an argument.
+			if call, isCall := expr.(FunctionCall); isCall && len(call.ReturnTypes()) == 0 {
+				return nil, p.expectedError(fmt.Sprintf(`return value from function "%s"`, call.Name()), argToken)
 			}
 			expressions = append(expressions, expr)
 			nextToken = p.peek()
